@@ -1,0 +1,131 @@
+//go:build verif
+
+package dagcbor
+
+// Contracts for govc (see /verif/DESIGN.md). Comment-only; compiled only under
+// the build tag "verif". Every line starting with //@ is part of a contract.
+
+//@ constglobal lengthBoundaries
+
+//@ func uintLength(ii) (n)
+//@   loop 0 unroll 5
+//@   assigns nothing
+//@   ensures[C02] ii < 24 ==> n == 1
+//@   ensures[C02] 24 <= ii && ii < 256 ==> n == 2
+//@   ensures[C02] 256 <= ii && ii < 65536 ==> n == 3
+//@   ensures[C02] 65536 <= ii && ii < 4294967296 ==> n == 5
+//@   ensures[C02] 4294967296 <= ii ==> n == 9
+
+//@ func marshalMap$1(i, j) (r)
+//@   requires 0 <= i && i < len(entries) && 0 <= j && j < len(entries)
+//@   assigns nothing
+//@   ensures[C02,C04] r == (entries[i].key < entries[j].key)
+
+//@ func marshalMap$2(i, j) (r)
+//@   requires 0 <= i && i < len(entries) && 0 <= j && j < len(entries)
+//@   assigns nothing
+//@   ensures[C02] r == (len(entries[i].key) < len(entries[j].key) || (len(entries[i].key) == len(entries[j].key) && entries[i].key < entries[j].key))
+
+// ---- canonical DAG-CBOR token stream (the oracle; written from the DAG-CBOR
+// rules in the statement of C02, not from the code) ----
+//
+// c*(p) describe the token at position p of "the canonical stream"; Enc(v, at)
+// says that the canonical encoding of value v starts at position at. Only the
+// unfolding direction (Enc ==> shape of the tokens) is needed: the encoder is
+// proved to emit, at every step, the token that any stream containing the
+// canonical encoding of the root value has at that position.
+
+//@ pure func ctype(p mathint) tok.TokenType
+//@ pure func ctagged(p mathint) bool
+//@ pure func ctag(p mathint) mathint
+//@ pure func clen(p mathint) mathint
+//@ pure func cstr(p mathint) string
+//@ pure func cbytes(p mathint) string
+//@ pure func cbool(p mathint) bool
+//@ pure func cint(p mathint) mathint
+//@ pure func cfloat(p mathint) float64
+//@ pure func Enc(v datamodel.Val, at mathint) bool
+//@ pure func tsize(v datamodel.Val) mathint
+//@ pure func moff(v datamodel.Val, j mathint) mathint
+//@ pure func loff(v datamodel.Val, j mathint) mathint
+//@ pure func skey(v datamodel.Val, j mathint) string
+//@ pure func sval(v datamodel.Val, j mathint) datamodel.Val
+//@ pure func cidbytes(l datamodel.Link) string = unbox(l, "cidlink.Link").Cid.str
+
+//@ axiom tsize_scalar: forall v datamodel.Val :: !datamodel.isrec(v) ==> tsize(v) == 1
+//@ axiom tsize_map: forall v datamodel.Val :: datamodel.vkind(v) == datamodel.Kind_Map ==> tsize(v) == moff(v, datamodel.vlen(v)) + 1
+//@ axiom tsize_list: forall v datamodel.Val :: datamodel.vkind(v) == datamodel.Kind_List ==> tsize(v) == loff(v, datamodel.vlen(v)) + 1
+//@ axiom moff_0: forall v datamodel.Val :: moff(v, 0) == 1
+//@ axiom moff_step: forall v datamodel.Val, j mathint :: 0 <= j && j < datamodel.vlen(v) ==> moff(v, j+1) == moff(v, j) + 1 + tsize(sval(v, j))
+//@ axiom loff_0: forall v datamodel.Val :: loff(v, 0) == 1
+//@ axiom loff_step: forall v datamodel.Val, j mathint :: 0 <= j && j < datamodel.vlen(v) ==> loff(v, j+1) == loff(v, j) + tsize(datamodel.vchild(v, j))
+
+//@ axiom enc_null: forall v datamodel.Val, at mathint :: Enc(v, at) && datamodel.vkind(v) == datamodel.Kind_Null ==> ctype(at) == tok.TNull && !ctagged(at)
+//@ axiom enc_bool: forall v datamodel.Val, at mathint :: Enc(v, at) && datamodel.vkind(v) == datamodel.Kind_Bool ==> ctype(at) == tok.TBool && !ctagged(at) && cbool(at) == datamodel.vbool(v)
+//@ axiom enc_int: forall v datamodel.Val, at mathint :: Enc(v, at) && datamodel.vkind(v) == datamodel.Kind_Int ==> ctype(at) == tok.TInt && !ctagged(at) && cint(at) == datamodel.vint(v)
+//@ axiom enc_float: forall v datamodel.Val, at mathint :: Enc(v, at) && datamodel.vkind(v) == datamodel.Kind_Float ==> ctype(at) == tok.TFloat64 && !ctagged(at) && cfloat(at) == datamodel.vfloat(v)
+//@ axiom enc_string: forall v datamodel.Val, at mathint :: Enc(v, at) && datamodel.vkind(v) == datamodel.Kind_String ==> ctype(at) == tok.TString && !ctagged(at) && cstr(at) == datamodel.vstr(v)
+//@ axiom enc_bytes: forall v datamodel.Val, at mathint :: Enc(v, at) && datamodel.vkind(v) == datamodel.Kind_Bytes ==> ctype(at) == tok.TBytes && !ctagged(at) && cbytes(at) == datamodel.vbytes(v)
+//@ axiom enc_link: forall v datamodel.Val, at mathint :: Enc(v, at) && datamodel.vkind(v) == datamodel.Kind_Link ==> ctype(at) == tok.TBytes && ctagged(at) && ctag(at) == 42
+//@        && len(cbytes(at)) == len(cidbytes(datamodel.vlink(v))) + 1 && cbytes(at)[0] == 0
+//@        && (forall i mathint :: 0 <= i && i < len(cidbytes(datamodel.vlink(v))) ==> cbytes(at)[i+1] == cidbytes(datamodel.vlink(v))[i])
+//@ axiom enc_list: forall v datamodel.Val, at mathint :: Enc(v, at) && datamodel.vkind(v) == datamodel.Kind_List ==> ctype(at) == tok.TArrOpen && !ctagged(at) && clen(at) == datamodel.vlen(v)
+//@        && ctype(at + loff(v, datamodel.vlen(v))) == tok.TArrClose && !ctagged(at + loff(v, datamodel.vlen(v)))
+//@ axiom enc_list_elem: forall v datamodel.Val, at mathint, j mathint :: Enc(v, at) && datamodel.vkind(v) == datamodel.Kind_List && 0 <= j && j < datamodel.vlen(v) ==> Enc(datamodel.vchild(v, j), at + loff(v, j))
+//@ axiom enc_map: forall v datamodel.Val, at mathint :: Enc(v, at) && datamodel.vkind(v) == datamodel.Kind_Map ==> ctype(at) == tok.TMapOpen && !ctagged(at) && clen(at) == datamodel.vlen(v)
+//@        && ctype(at + moff(v, datamodel.vlen(v))) == tok.TMapClose && !ctagged(at + moff(v, datamodel.vlen(v)))
+//@ axiom enc_map_entry: forall v datamodel.Val, at mathint, j mathint :: Enc(v, at) && datamodel.vkind(v) == datamodel.Kind_Map && 0 <= j && j < datamodel.vlen(v) ==>
+//@        ctype(at + moff(v, j)) == tok.TString && !ctagged(at + moff(v, j)) && cstr(at + moff(v, j)) == skey(v, j) && Enc(sval(v, j), at + moff(v, j) + 1)
+
+// tokmatch: the token in *tk is the canonical token at position p.
+//@ pred tokmatch(tk *tok.Token, p mathint) =
+//@      tk.Tagged == ctagged(p) && (tk.Tagged ==> tk.Tag == ctag(p))
+//@   && ((tk.Type == ctype(p) && tk.Type != tok.TInt && tk.Type != tok.TUint) || (ctype(p) == tok.TInt && tk.Type == tok.TInt && tk.Int == cint(p)) || (ctype(p) == tok.TInt && tk.Type == tok.TUint && tk.Uint == cint(p)))
+//@   && (tk.Type == tok.TMapOpen || tk.Type == tok.TArrOpen ==> tk.Length == clen(p))
+//@   && (tk.Type == tok.TString ==> tk.Str == cstr(p))
+//@   && (tk.Type == tok.TBool ==> tk.Bool == cbool(p))
+//@   && (tk.Type == tok.TFloat64 ==> tk.Float64 == cfloat(p))
+//@   && (tk.Type == tok.TBytes ==> len(tk.Bytes) == len(cbytes(p)) && (forall i mathint :: 0 <= i && i < len(tk.Bytes) ==> tk.Bytes[i] == cbytes(p)[i]))
+
+//@ ghost field shared.TokenSink.pos mathint mutable
+
+//@ interface shared.TokenSink.Step(tk) (done, err)
+//@   requires tk != nil
+//@   requires tokmatch(tk, recv.pos)
+//@   assigns recv.pos
+//@   ensures err == nil ==> recv.pos == old(recv.pos) + 1
+
+//@ func marshal(n, tk, sink, options) (err)
+//@   requires n != nil && tk != nil && sink != nil && !tk.Tagged
+//@   requires options.AllowLinks && options.MapSortMode == codec.MapSortMode_RFC7049
+//@   requires Enc(n.val, sink.pos)
+//@   assigns *tk, sink.pos
+//@   ensures[C02] err == nil ==> sink.pos == old(sink.pos) + tsize(n.val)
+//@   ensures !tk.Tagged
+//@   loop 0 invariant 0 <= i && i <= l && l == datamodel.vlen(n.val) && sink.pos == old(sink.pos) + loff(n.val, i) && !tk.Tagged
+//@   loop 0 assigns *tk, sink.pos
+
+// skey/sval: the j-th entry of map value v in canonical DAG-CBOR key order
+// (length first, then bytewise). That sorting the iterator's entries with a
+// comparator implementing that strict total order yields exactly this sequence
+// is the assumed lemma L_sortuniq (sort.Slice sorts + uniqueness of the sorted
+// permutation of distinct keys); the comparator closure itself (marshalMap$2)
+// is verified against the order above.
+
+//@ func marshalMap(n, tk, sink, options) (err)
+//@   requires n != nil && tk != nil && sink != nil && !tk.Tagged
+//@   requires options.AllowLinks && options.MapSortMode == codec.MapSortMode_RFC7049
+//@   requires datamodel.vkind(n.val) == datamodel.Kind_Map && Enc(n.val, sink.pos)
+//@   assigns *tk, sink.pos
+//@   ensures[C02] err == nil ==> sink.pos == old(sink.pos) + tsize(n.val)
+//@   ensures !tk.Tagged
+//@   loop 0 assigns entries, itr.pos
+//@   loop 0 invariant itr != nil && itr.src == n.val && len(entries) == itr.pos && sink.pos == old(sink.pos) + 1 && !tk.Tagged
+//@   loop 0 invariant fresh(entries) && root(entries) != root(&entries)
+//@   loop 0 invariant forall j mathint :: 0 <= j && j < len(entries) ==> entries[j].key == datamodel.vkeystr(n.val, j) && entries[j].value != nil && entries[j].value.val == datamodel.vchild(n.val, j)
+//@   after sort.Slice with marshalMap$2 assume
+//@        (forall j mathint :: 0 <= j && j < len(entries) ==> old(entries[j].key) == datamodel.vkeystr(n.val, j) && old(entries[j].value.val) == datamodel.vchild(n.val, j) && old(entries[j].value) != nil)
+//@        && len(entries) == datamodel.vlen(n.val)
+//@        ==> (forall j mathint :: 0 <= j && j < len(entries) ==> entries[j].key == skey(n.val, j) && entries[j].value.val == sval(n.val, j) && entries[j].value != nil)
+//@   loop 1 assigns *tk, sink.pos
+//@   loop 1 invariant 0 - 1 <= rangeindex && rangeindex + 1 <= len(entries) && sink.pos == old(sink.pos) + moff(n.val, rangeindex + 1) && !tk.Tagged
